@@ -68,7 +68,7 @@ func check(t ev.TB, c Case, labels map[string]bool) {
 			var ln int
 			if _, err := fmt.Sscanf(rep.GeneratorBug[strings.Index(rep.GeneratorBug, "prog.go:")+8:], "%d", &ln); err == nil {
 				lines := strings.Split(c.Src, "\n")
-				for i := ln - 9; i < ln+4 && i < len(lines); i++ {
+				for i := ln - 3; i < ln+45 && i < len(lines); i++ {
 					if i >= 0 {
 						fmt.Printf("%4d  %s\n", i+1, lines[i])
 					}
